@@ -514,9 +514,20 @@ impl LinearModel {
         out.push_str(&format!(" obj: {}\n", objective));
 
         out.push_str("Subject To\n");
+        // a generated name must not repeat a name the user gave to another row
+        let user_names: std::collections::HashSet<String> = self
+            .constraints
+            .iter()
+            .map(|c| c.name())
+            .filter(|name| !name.is_empty())
+            .collect();
         for (i, c) in self.constraints.iter().enumerate() {
             let name = if c.name().is_empty() {
-                format!("c{}", i + 1)
+                let mut generated = format!("c{}", i + 1);
+                while user_names.contains(&generated) {
+                    generated.push('_');
+                }
+                generated
             } else {
                 c.name()
             };
